@@ -273,6 +273,12 @@ func Gen(seed int64, index int, o GenOpts) *Case {
 			c.Cfg.SegmentCount = 7
 		}
 	}
+	if v == VarTS && !c.Tracks[lead].Kind.IsVideo() && (o.Profile == "general" || o.Profile == "exact") && (uint64(seed)+uint64(index)/2)%2 == 0 {
+		// audio-only MPEG-TS: with the usual SegmentMinDuration the "at least 100 writes" rule decides
+		// every cut; here the duration rule does (100 single-unit writes last about 2 s)
+		c.Cfg.SegMin = []time.Duration{3 * time.Second, 4 * time.Second, 5 * time.Second}[(uint64(seed)+uint64(index))%3]
+		c.Features["audio-ts-duration-rule"] = true
+	}
 	partMins := []time.Duration{50 * time.Millisecond, 100 * time.Millisecond, 200 * time.Millisecond, 333 * time.Millisecond, 500 * time.Millisecond}
 	c.Cfg.PartMin = partMins[pick(len(partMins))]
 	gopGrowth := 0
